@@ -3,6 +3,7 @@
 package engine
 
 import (
+	"github.com/form3tech-oss/f1/v2/pkg/f1"
 	"context"
 	"fmt"
 	"log/slog"
@@ -221,6 +222,12 @@ type Spec struct {
 	Interactive     bool              `json:"interactive,omitempty"`
 	Verbose         bool              `json:"verbose,omitempty"`
 	NoIterationMetrics bool           `json:"no_iteration_metrics,omitempty"` // metrics instance built with iteration metrics disabled
+	// Combine > 0: the scenario is registered as f1.CombineScenarios(scenario, <Combine-1 passing components>)
+	Combine int `json:"combine,omitempty"`
+	// GlobalMetrics: the run uses the process-wide metrics instance (as the command line does), re-initialised for it
+	GlobalMetrics bool `json:"global_metrics,omitempty"`
+	// PushGateway: URL of a push gateway the run pushes its metrics to
+	PushGateway string `json:"push_gateway,omitempty"`
 	QuietLogger     bool              `json:"quiet_logger,omitempty"` // the slog handler is disabled for every level
 	Scenario        string            `json:"scenario,omitempty"`
 }
@@ -425,6 +432,19 @@ func Prepare(spec Spec, l *Log, scenarioFn f1testing.ScenarioFn, hooks *Hooks, r
 		return r, nil
 	}
 	r.Trigger = trig
+	if spec.Combine > 0 {
+		parts := []f1testing.ScenarioFn{scenarioFn}
+		for i := 1; i < spec.Combine; i++ {
+			parts = append(parts, func(*f1testing.T) f1testing.RunFn { return func(*f1testing.T) {} })
+		}
+		scenarioFn = f1.CombineScenarios(parts...)
+	}
+	if spec.GlobalMetrics && reuse == nil {
+		// (initialised once per process: static labels are those of the first initialisation)
+		metrics.InitWithStaticMetrics(true, nil)
+		reuse = metrics.Instance()
+		reuse.IterationMetricsEnabled = !spec.NoIterationMetrics
+	}
 	if reuse != nil {
 		r.Metrics = reuse
 		r.Registry = reuse.Registry
@@ -460,6 +480,7 @@ func Prepare(spec Spec, l *Log, scenarioFn f1testing.ScenarioFn, hooks *Hooks, r
 		completion = 10 * time.Second
 	}
 	settings := envsettings.Settings{Log: envsettings.Log{FilePath: "/dev/null"}}
+	settings.Prometheus.PushGateway = spec.PushGateway
 	fr, err := NewRun(r.Options, sc, trig, completion, settings, r.Metrics, out)
 	if err != nil {
 		r.NewErr = err
